@@ -20,13 +20,16 @@ use std::sync::atomic::Ordering::*;
 use arc_swap::RefCnt;
 use arc_swap_verif_rt as rt;
 use rt::atomic::{fence, AtomicUsize};
-use rt::cell::VCell;
+use rt::cell::{RaceTag, VCell};
 
 #[repr(C, align(8))]
 pub struct VInner<const TAG: u32> {
     strong: AtomicUsize,
     id: Cell<u32>,
     payload: VCell<u64>,
+    /// The header (the count) is initialised by a plain write of the creator, like ArcInner:
+    /// every later count operation must happen-after it.
+    header: RaceTag,
 }
 
 pub struct VArc<const TAG: u32> {
@@ -157,7 +160,7 @@ impl<const TAG: u32> VArc<TAG> {
     /// A new value with the given label (its payload), count 1.
     pub fn new(label: u64) -> Self {
         let reused = reg(|r| if r.mode == AllocMode::Reuse { r.free.get_mut(&TAG).and_then(|v| v.pop()) } else { None });
-        let fresh = VInner::<TAG> { strong: AtomicUsize::new(1), id: Cell::new(0), payload: VCell::new(label) };
+        let fresh = VInner::<TAG> { strong: AtomicUsize::new(1), id: Cell::new(0), payload: VCell::new(label), header: RaceTag::new() };
         let ptr = match reused {
             Some(addr) => {
                 let p = addr as *mut VInner<TAG>;
@@ -184,6 +187,7 @@ impl<const TAG: u32> VArc<TAG> {
             // The creator initialises the payload: a plain write that must happen-before every
             // read through any handle.
             (*ptr).payload.write(&format!("payload of value #{} (init)", label), |v| *v = label);
+            (*ptr).header.plain_write(&format!("header of value #{} (init)", label));
         }
         rt::note(|| format!("new value #{} at {:#x}", label, ptr as usize));
         VArc { ptr }
@@ -261,7 +265,9 @@ impl<const TAG: u32> Clone for VArc<TAG> {
             std::panic::panic_any(rt::Injected("clone"));
         }
         match reg(|r| r.lookup(addr)) {
-            Lookup::Live(_) => {
+            Lookup::Live(id) => {
+                let label = reg(|r| r.label(id));
+                unsafe { (*self.ptr).header.plain_read(&format!("header of value #{} (count increment)", label)) };
                 let old = unsafe { (*self.ptr).strong.fetch_add(1, Relaxed) };
                 if old == 0 && !rt::draining() {
                     rt::violation("C01,C02", "poison", format!("the count of {} was incremented from zero", describe(addr)));
@@ -283,6 +289,8 @@ impl<const TAG: u32> Drop for VArc<TAG> {
         let addr = self.ptr as usize;
         match reg(|r| r.lookup(addr)) {
             Lookup::Live(id) => {
+                let label0 = reg(|r| r.label(id));
+                unsafe { (*self.ptr).header.plain_read(&format!("header of value #{} (count decrement)", label0)) };
                 let old = unsafe { (*self.ptr).strong.fetch_sub(1, Release) };
                 if old == 0 {
                     rt::violation("C02", "count", format!("the count of {} was decremented below zero", describe(addr)));
